@@ -16,7 +16,7 @@
    - time.Now().UTC().Format(RFC3339) is the parameter [now];
      the validation of a caller-supplied created value is the recogniser [rfc3339_ok]
      (mirrors time.parseStrictRFC3339 step by step). *)
-From Oras Require Import Base.Prelude Base.Regex Generated.GC19.
+From Oras Require Import Base.Prelude Base.Regex Base.StrCheck Generated.GC19.
 
 Definition kv := (str * str)%type.
 
@@ -152,7 +152,11 @@ Definition rfc3339_gen (strict : bool) (s : str) : bool :=
     (1 <=? day) && (day <=? days_in month year) && tz_ok strict (skip_frac strict s)
   end end end end end end end end end end end.
 
-Definition rfc3339_ok : str -> bool := rfc3339_gen true.
+(* ensureAnnotationCreated -> validateRFC3339: time.Parse(time.RFC3339, v) must succeed and none of
+   the explicit checks translated from pack.go (Generated: validateRFC3339_checks) may reject.
+   Proofs/PackTime.v shows this equals [rfc3339_gen true]. *)
+Definition rfc3339_ok (s : str) : bool :=
+  rfc3339_gen false s && negb (switch_rejects s validateRFC3339_checks).
 Definition rfc3339_ok_prefix : str -> bool := rfc3339_gen false.
 
 (* ---------- annotations ---------- *)
